@@ -99,7 +99,7 @@ func soundedKeys(c *core.Ctx, sym string, extra []string) ([]int, *smfdec.File, 
 
 func checkC16(c *core.Ctx) {
 	c.Rule("built-ins exhaustively: all 46 lookup keys (23 names + 23 displays) played on 3 degrees in 3 keys and described from 3 roots, name vs display compared; every attribute of `info attr list` compared with the interval its English name denotes; `info attr list` = `gen attr -d <largest listed number + 1>` = chord/attribute.yml; " +
-		"user dictionaries: random inheritance forests (depth <= 6) over fresh attributes with random intervals, overriding and fresh names, split over 1..3 --chord/--attr files, played and compared with the parent-first transitive union; each inconsistency kind (dangling attribute, dangling extends, extends cycle of length 1..5, a chord leading into a cycle it is not part of, unnamed chord, unnamed attribute) injected with the broken chord used and unused; " +
+		"user dictionaries: random inheritance forests (depth <= 6) over fresh attributes with random intervals, overriding and fresh names, split over 1..3 --chord/--attr files in any order of definitions and files (children before parents, comma lists, a file arriving through a pipe), symbols spelled like names, any built-in symbol taken over by a fresh chord, chains of 20..200 extends, played and compared with the parent-first transitive union; each inconsistency kind (dangling attribute, dangling extends, extends cycle of length 1..5, a chord leading into a cycle it is not part of, unnamed chord, unnamed attribute, dangling references and cycles in entries reachable by display only) injected with the broken chord used and unused; " +
 		"non-trivial = forest with an inheritance chain >= 3 and a chord adding >= 2 attributes of its own, or a built-in lookup key checked against the conventional table; distinct by case")
 	c.Assume("theory.ChordTable (conventional meanings listed in the property)", "theory.AttributeInterval reads English interval names", "smfdec", "yaml.v3 as reader")
 
